@@ -142,26 +142,29 @@ theorem opOk_of_flags {c : Nat} {s s' : SockW} {w w' : MuxW} {m m' : MuxL} {e e'
   · apply srcStar_flags <;> simp_all [SV]
   · apply sinkStar_flags <;> simp_all [KV]
 
-theorem tryConnect_ok (c : Nat) (s : SockW) (w : MuxW) (m : MuxL) (e : ESock) (ok se : Bool)
-    (cr : ConnRes) (s' : SockW) (e' : ESock) (h : s.tryConnect e cr se = .ok s' e') :
-    OpOk c s w m e ok s' w m e' ok := by
-  have facts : s'.buf = s.buf ∧ e'.consumed = e.consumed ∧ e'.pending = e.pending ∧
+theorem tryConnect_facts (s : SockW) (e : ESock) (se : Bool) (cr : ConnRes) (s' : SockW) (e' : ESock)
+    (h : s.tryConnect e cr se = .ok s' e') :
+    s'.buf = s.buf ∧ e'.consumed = e.consumed ∧ e'.pending = e.pending ∧
       e'.delivered = e.delivered ∧ e'.eofIn = e.eofIn ∧ (s.shutR = true → s'.shutR = true) ∧
       (s.shutW = true → s'.shutW = true) ∧ (e.sawShut = true → e'.sawShut = true) ∧
       (s'.shutW = true → s.shutW = true ∨ e'.sawShut = true) := by
-    unfold SockW.tryConnect at h
-    simp only [SockW.seterr, SockW.nowrite, SockW.noread] at h
-    cases cr <;> cases se <;> cases hc : s.connecting <;> cases hw : s.shutW <;> simp [hc, hw] at h
-    all_goals (try split at h)
-    all_goals (try split at h)
-    all_goals (try split at h)
-    all_goals (try split at h)
-    all_goals (try split at h)
-    all_goals (try split at h)
-    all_goals (try (simp at h))
-    all_goals (try (obtain ⟨rfl, rfl⟩ := h))
-    all_goals (try simp_all)
-  obtain ⟨f1, f2, f3, f4, f5, f6, f7, f8, f9⟩ := facts
+  unfold SockW.tryConnect at h
+  simp only [SockW.seterr, SockW.nowrite, SockW.noread] at h
+  cases cr <;> cases se <;> cases hc : s.connecting <;> cases hw : s.shutW <;> simp [hc, hw] at h
+  all_goals (try split at h)
+  all_goals (try split at h)
+  all_goals (try split at h)
+  all_goals (try split at h)
+  all_goals (try split at h)
+  all_goals (try split at h)
+  all_goals (try (simp at h))
+  all_goals (try (obtain ⟨rfl, rfl⟩ := h))
+  all_goals (try simp_all)
+
+theorem tryConnect_ok (c : Nat) (s : SockW) (w : MuxW) (m : MuxL) (e : ESock) (ok se : Bool)
+    (cr : ConnRes) (s' : SockW) (e' : ESock) (h : s.tryConnect e cr se = .ok s' e') :
+    OpOk c s w m e ok s' w m e' ok := by
+  obtain ⟨f1, f2, f3, f4, f5, f6, f7, f8, f9⟩ := tryConnect_facts s e se cr s' e' h
   exact opOk_of_flags f1 rfl rfl rfl f2 f3 f4 f5 f6 f7 id id f8 f9 (fun h => Or.inl h) (fun h => Or.inl h)
 
 /-! ### relational forms of the data-moving transitions -/
